@@ -3,7 +3,7 @@ import gen_gin as G
 from encode import to_literal
 
 KNOWN_MODULES = ['os', 'json', 'collections.abc']
-MISSING_MODULES = ['no_such_module_xyz', 'os.no_such_sub_xyz']
+MISSING_MODULES = ['no_such_module_xyz', 'os.no_such_sub_xyz', 'ginverif_optdep', 'ginverif_optdep']
 
 
 def raw_literal(j):
